@@ -601,3 +601,140 @@ def badlabel_family():
         prog = [[("mark", 1)]]
         cases.append(["reset", script_line(prog), h % 1, "step 0", h % 4, "step 1000", "thread-result"])
     return cases
+
+
+# ---------------------------------------------------------------------------------------------
+# C07: one object carrying `endon` registrations under several event names at the same time
+
+def _orders(names):
+    """every non-empty sequence of distinct names (every subset in every order)"""
+    import itertools
+    res = []
+    for r in range(1, len(names) + 1):
+        res += [list(p) for p in itertools.permutations(names, r)]
+    return res
+
+
+def endon_family(quick=True):
+    """k threads each `$o1 endon n_i` (distinct names, same object), then parked (on a gate object, on a
+    timer, paused); the names are notified in every order — inside one command by the first thread, or by
+    separate host calls between frames — and the gate is opened at the end: the markers show exactly the
+    threads whose own event was never notified.  Plus: a thread named under two names, two threads under
+    one name beside a third name, the same names on a second object (must be unaffected)."""
+    cases = []
+    GATE = 9
+    parks = [[("waittill", 2, [GATE])], [("wait", 250)], [("pause",)]]
+    for k in ((2, 3) if quick else (2, 3, 4)):
+        names = list(range(1, k + 1))
+        for shape in range(4):
+            # victims: label index 1..; (list of (obj, name) endon registrations)
+            if shape == 0:
+                regs = [[(1, n)] for n in names]
+            elif shape == 1:
+                regs = [[(1, 1), (1, 2)]] + [[(1, n)] for n in names[2:]] + [[(1, names[-1])]]
+            elif shape == 2:
+                regs = [[(1, n)] for n in names] + [[(1, 1)]]
+            else:
+                regs = [[(1, n)] for n in names] + [[(3, n)] for n in names]      # object 3: same names, never notified
+            for pi, park in enumerate(parks):
+                if shape and pi and quick:
+                    continue
+                for order in _orders(names):
+                    if shape and quick and len(order) < 2:
+                        continue
+                    nv = len(regs)
+                    victims = [[("endon", o, n) for (o, n) in r] + [("mark", 10 + i)] + park + [("mark", 20 + i)]
+                               for i, r in enumerate(regs)]
+                    start = [("spawn", 1), ("spawn", 2), ("spawn", 3), ("mark", 1)] + [("thread", 1 + i) for i in range(nv)] + [("mark", 2)]
+                    # (a) every notify inside the first command
+                    body = list(start)
+                    for j, n in enumerate(order):
+                        body += [("notify", 1, n), ("mark", 30 + j)]
+                    body += [("notify", 2, GATE), ("mark", 3)]
+                    cases.append(["reset", script_line([body] + victims), "call m t0", "step 125", "step 125", "step 1000", "thread-result"])
+                    # (b) notifier labels called by the host between frames
+                    notifiers = [[("notify", 1, n), ("mark", 40 + n)] for n in names]
+                    gate = [[("notify", 2, GATE), ("mark", 4)]]
+                    prog = [start] + victims + notifiers + gate
+                    lines = ["reset", script_line(prog), "call m t0"]
+                    for j, n in enumerate(order):
+                        lines += ["call m t%d" % (1 + nv + n - 1), "step %d" % (0 if j % 2 == 0 else 50)]
+                    lines += ["call m t%d" % (1 + nv + k), "step 125", "step 1000", "thread-result"]
+                    cases.append(lines)
+    return cases
+
+
+def gen_endon_prog(rng):
+    """C07 (random): 2-5 threads with 1-3 `endon` registrations each over few objects and up to 4 names
+    (so that one object usually carries several names at once), parked in different ways; the first thread
+    and notifier labels notify / delete in random order"""
+    nobj = rng.choice([1, 1, 2])
+    nnames = rng.randint(2, 4)
+    nv = rng.randint(2, 5)
+    mk = Marks()
+    GATE = 9
+    victims = []
+    for i in range(nv):
+        body = [mk.next()]
+        for _ in range(rng.choice([1, 1, 2, 3])):
+            body.append(("endon", rng.randint(1, nobj), rng.randint(1, nnames)))
+        for _ in range(rng.choice([1, 1, 2])):
+            r = rng.random()
+            if r < 0.35:
+                body.append(("waittill", 3, [GATE]))
+            elif r < 0.6:
+                body.append(("wait", rng.choice([125, 250, 500])))
+            elif r < 0.8:
+                body.append(("waittill", rng.randint(1, nobj), [rng.randint(1, nnames)]))
+            elif r < 0.9:
+                body.append(("pause",))
+            else:
+                body.append(("endon", rng.randint(1, nobj), rng.randint(1, nnames)))
+            body.append(mk.next())
+        victims.append(body)
+    nnot = rng.randint(1, 3)
+    notifiers = []
+    for _ in range(nnot):
+        body = [mk.next()]
+        for _ in range(rng.randint(1, 3)):
+            r = rng.random()
+            if r < 0.8:
+                body.append(("notify", rng.randint(1, nobj), rng.randint(1, nnames)))
+            elif r < 0.9:
+                body.append(("notify", 3, GATE))
+            else:
+                body.append(("delete", rng.randint(1, nobj)))
+            body.append(mk.next())
+        notifiers.append(body)
+    first = [("spawn", o) for o in range(1, nobj + 1)] + [("spawn", 3), mk.next()]
+    order = list(range(1, nv + 1))
+    rng.shuffle(order)
+    for v in order:
+        first.append(("thread", v))
+    first.append(mk.next())
+    for _ in range(rng.randint(0, 4)):
+        r = rng.random()
+        if r < 0.7:
+            first.append(("notify", rng.randint(1, nobj), rng.randint(1, nnames)))
+        elif r < 0.85:
+            first.append(("wait", rng.choice([0, 125, 250])))
+        else:
+            first.append(("thread", nv + rng.randint(1, nnot)))
+        first.append(mk.next())
+    if rng.random() < 0.5:
+        first += [("notify", 3, GATE), mk.next()]
+    return [first] + victims + notifiers, nv
+
+
+def gen_endon_case(rng):
+    prog, nv = gen_endon_prog(rng)
+    lines = ["reset", script_line(prog), "call m t0"]
+    for _ in range(rng.randint(2, 8)):
+        r = rng.random()
+        if r < 0.5:
+            lines.append("call m t%d" % rng.randint(nv + 1, len(prog) - 1))
+        elif r < 0.55:
+            lines.append("call m t%d" % rng.randint(1, nv))
+        lines.append("step %d" % rng.choice(STEPS))
+    lines += ["step 1000", "step 1000", "thread-result"]
+    return lines
